@@ -308,58 +308,63 @@ def _async_run_single_stage(
     courier_worker.wait_until_alive(master_server.address, deadline_secs=180)
     ticker = time.time()
     worker_exceptions = []
-    while not result_q.enqueue_done or iterating:
-      # Check the workerpool requirements and set up a new one when needed.
-      num_workers = len(iterating)
-      # At least schedule min_workers and maximum max_workers when there are
-      # still input left and no failurers with exception.
-      still_need_workers = (
-          not result_q.exception
-          and input_queue
-          and (num_workers < max_workers or num_workers < min_workers)
-      )
-      if still_need_workers:
-        workers = list(set(worker_pool.workers) - set(iterating))
-        random.shuffle(workers)
-        worker = worker_pool.next_idle_worker(workers, maybe_acquire=True)
-        if worker is not None:
-          remote_iterator = worker.async_iter(
-              lazy_iterator, name=f'{transform.name}(remote_iter)'
-          )
-          state = asyncio.run_coroutine_threadsafe(
-              result_q.async_enqueue_from_iterator(remote_iterator),
-              event_loop,
-          )
-          iterating[worker] = state
-          logging.info(
-              'chainable: %s', f'iterating with {len(iterating)} workers.'
-          )
-
-      # Check the states of the workers, release when done or crashed.
-      for worker, state in copy.copy(iterating).items():
-        if state.done():
-          del iterating[worker]
-          worker.release()
-          if exc := state.exception():
-            logging.exception(
-                'chainable: %s',
-                f'worker {worker} failed with exception: {type(exc)}, {exc}',
+    try:
+      while not result_q.enqueue_done or iterating:
+        # Check the workerpool requirements and set up a new one when needed.
+        num_workers = len(iterating)
+        # At least schedule min_workers and maximum max_workers when there are
+        # still input left and no failurers with exception.
+        still_need_workers = (
+            not result_q.exception
+            and input_queue
+            and (num_workers < max_workers or num_workers < min_workers)
+        )
+        if still_need_workers:
+          workers = list(set(worker_pool.workers) - set(iterating))
+          random.shuffle(workers)
+          worker = worker_pool.next_idle_worker(workers, maybe_acquire=True)
+          if worker is not None:
+            remote_iterator = worker.async_iter(
+                lazy_iterator, name=f'{transform.name}(remote_iter)'
             )
-            worker_exceptions.append(exc)
+            state = asyncio.run_coroutine_threadsafe(
+                result_q.async_enqueue_from_iterator(remote_iterator),
+                event_loop,
+            )
+            iterating[worker] = state
+            logging.info(
+                'chainable: %s', f'iterating with {len(iterating)} workers.'
+            )
+
+        # Check the states of the workers, release when done or crashed.
+        for worker, state in copy.copy(iterating).items():
+          if state.done():
+            del iterating[worker]
+            worker.release()
+            if exc := state.exception():
+              logging.exception(
+                  'chainable: %s',
+                  f'worker {worker} failed with exception: {type(exc)}, {exc}',
+              )
+              worker_exceptions.append(exc)
+            logging.info(
+                'chainable: %s',
+                f'worker {worker} released, remains {len(iterating)},'
+                f' "{result_q.name}" enqueue_done={result_q.enqueue_done}',
+            )
+        if time.time() - ticker > _LOGGING_INTERVAL_SECS:
+          delta_cnt, cnt = result_q.progress.cnt - cnt, result_q.progress.cnt
+          delta_time, ticker = time.time() - ticker, time.time()
           logging.info(
               'chainable: %s',
-              f'worker {worker} released, remains {len(iterating)},'
-              f' "{result_q.name}" enqueue_done={result_q.enqueue_done}',
+              f'{transform.name} async_iter processed {cnt} with througput:'
+              f' {delta_cnt / delta_time:.2f} batches/sec',
           )
-      if time.time() - ticker > _LOGGING_INTERVAL_SECS:
-        delta_cnt, cnt = result_q.progress.cnt - cnt, result_q.progress.cnt
-        delta_time, ticker = time.time() - ticker, time.time()
-        logging.info(
-            'chainable: %s',
-            f'{transform.name} async_iter processed {cnt} with througput:'
-            f' {delta_cnt / delta_time:.2f} batches/sec',
-        )
-      time.sleep(0)
+        time.sleep(0)
+    finally:
+      # Workers still iterating when the stage fails must not stay acquired.
+      for worker in iterating:
+        worker.release()
     if worker_exceptions:
       logging.error('chainable: %s', f'{len(worker_exceptions)} workers failed')
       raise ExceptionGroup('Workers failed with exceptions:', worker_exceptions)
@@ -478,70 +483,72 @@ def as_completed(
   tasks: list[courier_worker.Task] = []
   preferred = set()
   exhausted = False
-  while not exhausted or tasks or running_tasks:
-    # Submitting the next batch of tasks.
-    if not worker_pool.workers:
-      raise TimeoutError('All workers timeout, check worker status.')
-    backup_workers = list(set(worker_pool.workers) - preferred)
-    random.shuffle(backup_workers)
-    workers = list(itertools.chain(preferred, backup_workers))
-    while (tasks or not exhausted) and (
-        worker := worker_pool.next_idle_worker(workers, maybe_acquire=True)
-    ):
-      # Ensure failed tasks are retried before new tasks are submitted.
-      if not tasks and not exhausted:
-        try:
-          tasks.append(courier_worker.Task.maybe_as_task(next(task_iterator)))
-        except StopIteration:
-          exhausted = True
-      if tasks:
-        running_tasks.append(worker.submit(tasks.pop()))
+  try:
+    while not exhausted or tasks or running_tasks:
+      # Submitting the next batch of tasks.
+      if not worker_pool.workers:
+        raise TimeoutError('All workers timeout, check worker status.')
+      backup_workers = list(set(worker_pool.workers) - preferred)
+      random.shuffle(backup_workers)
+      workers = list(itertools.chain(preferred, backup_workers))
+      while (tasks or not exhausted) and (
+          worker := worker_pool.next_idle_worker(workers, maybe_acquire=True)
+      ):
+        # Ensure failed tasks are retried before new tasks are submitted.
+        if not tasks and not exhausted:
+          try:
+            tasks.append(courier_worker.Task.maybe_as_task(next(task_iterator)))
+          except StopIteration:
+            exhausted = True
+        if tasks:
+          running_tasks.append(worker.submit(tasks.pop()))
 
-    # Check the results of the running tasks and retry timeout tasks.
-    still_running: list[courier_worker.Task] = []
-    for task in running_tasks:
-      if task.done():
-        if exc := task.exception():
-          preferred.discard(task.worker)
-          if isinstance(exc, TimeoutError) or courier_worker.is_timeout(exc):
-            logging.warning(
-                'chainable: %s',
-                f'deadline exceeded at {task.server_name}, retrying task.',
-            )
-            tasks.append(task.set(_exc=None))
-          elif ignore_failures:
-            logging.exception(
-                'chainable: %s',
-                f'task failed with exception: {exc}, task: {task}',
-            )
+      # Check the results of the running tasks and retry timeout tasks.
+      still_running: list[courier_worker.Task] = []
+      for task in running_tasks:
+        if task.done():
+          if exc := task.exception():
+            preferred.discard(task.worker)
+            if isinstance(exc, TimeoutError) or courier_worker.is_timeout(exc):
+              logging.warning(
+                  'chainable: %s',
+                  f'deadline exceeded at {task.server_name}, retrying task.',
+              )
+              tasks.append(task.set(_exc=None))
+            elif ignore_failures:
+              logging.exception(
+                  'chainable: %s',
+                  f'task failed with exception: {exc}, task: {task}',
+              )
+            else:
+              raise exc
           else:
-            raise exc
+            preferred.add(task.worker)
+            yield task.result()
+        elif not task.is_alive:
+          logging.warning(
+              'chainable: %s',
+              f'Worker {task.server_name} disconnected.',
+          )
+          assert task.state is not None
+          task.state.set_exception(TimeoutError(f'{task.server_name} timeout.'))
+          tasks.append(task.set(_exc=None))
         else:
-          preferred.add(task.worker)
-          yield task.result()
-      elif not task.is_alive:
-        logging.warning(
-            'chainable: %s',
-            f'Worker {task.server_name} disconnected.',
-        )
-        assert task.state is not None
-        task.state.set_exception(TimeoutError(f'{task.server_name} timeout.'))
-        tasks.append(task.set(_exc=None))
-      else:
-        still_running.append(task)
-    running_tasks = still_running
+          still_running.append(task)
+      running_tasks = still_running
 
-    # Releasing unused workers.
-    if exhausted and not tasks:
-      running = set(task.worker for task in running_tasks)
-      acquired = set(worker_pool.acquired_workers)
-      reserved = set()
-      # Reserve some workers from the preferred workers first.
-      if candidates := list(preferred - running or acquired - running):
-        # Reserve same amount of workers as the number of unproven workers.
-        num_reserved_workers = len(running - preferred)
-        reserved.update(random.sample(candidates, k=num_reserved_workers))
-      unused_workers = acquired - running - reserved
-      worker_pool.release_all(unused_workers)
-    time.sleep(0.0)
-  worker_pool.release_all()
+      # Releasing unused workers.
+      if exhausted and not tasks:
+        running = set(task.worker for task in running_tasks)
+        acquired = set(worker_pool.acquired_workers)
+        reserved = set()
+        # Reserve some workers from the preferred workers first.
+        if candidates := list(preferred - running or acquired - running):
+          # Reserve same amount of workers as the number of unproven workers.
+          num_reserved_workers = len(running - preferred)
+          reserved.update(random.sample(candidates, k=num_reserved_workers))
+        unused_workers = acquired - running - reserved
+        worker_pool.release_all(unused_workers)
+      time.sleep(0.0)
+  finally:
+    worker_pool.release_all()
